@@ -532,51 +532,9 @@ def f_tuple_key(case, obs, fail):
             and B._has_tuple_key(case["case"]["ty"]) and B._nonempty_tuple_key_dict(case["case"]["ty"], case["case"]["x"]))
 
 
-def _plain_marked_in_container(T, inside=False):
-    k = T["k"]
-    if k == "dc":
-        here = inside and not T.get("reg", False) and any((not f.get("to_dict", True)) or f.get("enc") is not None for f in T["fields"])
-        # fields of a plain class inside a container are encoded by the generic branch too
-        return here or any(_plain_marked_in_container(f["ty"], inside or (inside and not T.get("reg", False))) for f in T["fields"])
-    if k == "opt":
-        return _plain_marked_in_container(T["inner"], inside)
-    if k in ("list", "set", "vtuple"):
-        return _plain_marked_in_container(T["item"], True)
-    if k == "tuple":
-        return any(_plain_marked_in_container(t, True) for t in T["items"])
-    if k == "dict":
-        return _plain_marked_in_container(T["val"], True)
-    return False
-
-
-def _only_extra_or_unhooked(exp, got):
-    """got differs from exp only inside dict nodes that have extra keys / un-hooked values (walk in parallel)."""
-    if exp == got:
-        return True
-    if not isinstance(exp, dict) or not isinstance(got, dict) or exp.get("t") != got.get("t"):
-        return False
-    if exp["t"] == "list" and len(exp["v"]) == len(got["v"]):
-        return all(_only_extra_or_unhooked(e, g) for e, g in zip(exp["v"], got["v"]))
-    if exp["t"] == "dict":
-        gk = [k.get("v") for k, _ in got["v"]]
-        ek = [k.get("v") for k, _ in exp["v"]]
-        if all(k in gk for k in ek):
-            return True   # a dict node that kept every expected key: extra keys (to_dict=False ignored) or raw values (encoding_fn ignored)
-    return False
-
-
-def f_plain_in_container(case, obs, fail):
-    """A non-Serializable dataclass with marked fields sits inside a List/Tuple/Set/Dict: `encode` takes its generic
-    dataclass branch there, which ignores to_dict=False and encoding_fn. Only the content clause fails, and only inside
-    such dict nodes (every expected key is still present)."""
-    return (fail.get("clause") == "content" and _plain_marked_in_container(case["case"]["ty"])
-            and _only_extra_or_unhooked(B.strip_odict(fail["exp"]), B.strip_odict(fail["got"])))
-
-
 FINDINGS = {
     "C13-set-iteration-order": f_set_order,
     "C13-tuple-key-dict-emits-tuples": f_tuple_key,
-    "C13-plain-dataclass-in-container-ignores-field-metadata": f_plain_in_container,
 }
 
 MANIFEST = {
@@ -584,8 +542,8 @@ MANIFEST = {
              "dict/list/str/int/float/bool/None (c13_prim, any nesting depth), the keys of to_dict are exactly the fields not marked "
              "to_dict=False in field order (c13_omit, any field list, any hook environment), a field's encoding_fn / decoding_fn is what "
              "produces that field's entry (c13_encoding_hook, c13_decoding_hook) and no other entry depends on it (c13_hook_local); "
-             "named gaps with witnesses: set iteration order (D15), tuple-keyed dicts emit tuples, non-Serializable dataclasses inside "
-             "containers ignore field metadata. Freshness / no-aliasing and purity of from_dict are checked on the real code by id()-based "
+             "encode of an instance is to_dict of it, Serializable or not (c13_encode_is_to_dict); named gaps with witnesses: set "
+             "iteration order (D15), tuple-keyed dicts emit tuples. Freshness / no-aliasing and purity of from_dict are checked on the real code by id()-based "
              "alias detection and mutation probes on every mutable node (not modelled in Lean)."),
     "note": ("Trusted: Lean kernel + propext/Classical.choice/Quot.sound; json, PyYAML, copy; the harness. Modelled not verified: "
              "encoding.py:61-141, serializable.py:707-908, fields.py:111-120. Object identity is not part of the Lean model: the aliasing "
